@@ -14,7 +14,7 @@ from mc import boot
 LEVEL = "model_checking"
 # A run restricted to some models / families (developer convenience) must never overwrite the evidence of
 # a full run: its evidence goes to the git-ignored .cache directory unless a directory is given explicitly.
-_PARTIAL = bool(os.environ.get("VERIF_MODELS") or os.environ.get("VERIF_FAMILIES"))
+_PARTIAL = bool(os.environ.get("VERIF_MODELS") or os.environ.get("VERIF_FAMILIES") or os.environ.get("VERIF_C02_FAMILIES"))
 EVIDENCE_DIR = os.environ.get("VERIF_EVIDENCE_DIR") or os.path.join(
     boot.VERIF, ".cache/partial-evidence" if _PARTIAL else "evidence")
 REPLAY_DIR = os.environ.get("VERIF_REPLAY_DIR") or os.path.join(boot.VERIF, "replays")
